@@ -215,6 +215,15 @@ func buildScenario(c *core.Ctx, stream string, idx int) *scen {
 		sc.texts = append(sc.texts, &textCase{name: fmt.Sprintf("%s-%d-t%d.ecal", stream, idx, k), src: src, kind: kind,
 			ifFor: ifForRe.MatchString(src)})
 	}
+	// texts whose very FIRST token cannot be read (the parser gives up before
+	// it has built anything): an unclosed string, a bad identifier, nothing but a
+	// comment without a line end
+	if (idx/2)%2 == 1 {
+		for k, f := range [][2]string{{"\"never closed " + fmt.Sprint(idx) + "\nx := 1\n", "first-token-unclosed-string"},
+			{"1abc := 2\n", "first-token-bad-identifier"}, {"# nothing but a comment", "comment-only-no-line-end"}} {
+			sc.texts = append(sc.texts, &textCase{name: fmt.Sprintf("%s-%d-f%d.ecal", stream, idx, k), src: f[0], kind: f[1]})
+		}
+	}
 	g := []int{2, 2, 3, 4, 4, 6, 8, 8, 12, 16}[r.Intn(10)]
 	jg := &tgen{r: r, ifFor: sc.ifFor}
 	for i := 0; i < g; i++ {
@@ -611,7 +620,7 @@ func probesSaneList(l []string) bool {
 
 // Run is the check.
 func Run(c *core.Ctx) {
-	c.Note("rule", "scenario = seeded set of 4..14 generated program texts (assignments, expressions, list/map literals incl. nested and empty ones, func/sink/try/mutex blocks, imports from a memory locator, comments, interpolated strings; mixed stream additionally if/elif/else and for with nested guards; 1 in 4 texts carries an injected syntax error: dropped closing brace, stray token, unclosed string, unfinished map, error in the middle) plus 3 importable files; sequential results first (in the first scenario of each process: afterwards, so that lazily initialised state is first touched concurrently), then 2..16 goroutines: parsing goroutines (Parse / ParseWithRuntime on one shared provider / +Validate, N parses each over the texts) next to evaluation goroutines (interpolating strings, importing files, sinks on pool workers fed with 8..24 events, debugger breakpoint + inject loop). canary stream = 4 fixed texts (if, for, map literals), 2..4 parsing goroutines. noif stream: no if/for anywhere. non-trivial/distinct = distinct (text, parse mode) pairs and distinct evaluation jobs of scenarios in which at least two parses were observed in flight simultaneously")
+	c.Note("rule", "scenario = seeded set of 4..14 generated program texts (assignments, expressions, list/map literals incl. nested and empty ones, func/sink/try/mutex blocks, imports from a memory locator, comments, interpolated strings; mixed stream additionally if/elif/else and for with nested guards; 1 in 4 texts carries an injected syntax error: dropped closing brace, stray token, unclosed string, unfinished map, error in the middle; every other scenario adds three texts whose very first token cannot be read) plus 3 importable files; sequential results first (in the first scenario of each process and in every eighth scenario: afterwards, so that lazily initialised state is first touched concurrently), then 2..16 goroutines: parsing goroutines (Parse / ParseWithRuntime on one shared provider / +Validate, N parses each over the texts) next to evaluation goroutines (interpolating strings, importing files, sinks on pool workers fed with 8..24 events, debugger breakpoint + inject loop). canary stream = 4 fixed texts (if, for, map literals), 2..4 parsing goroutines. noif stream: no if/for anywhere. non-trivial/distinct = distinct (text, parse mode) pairs and distinct evaluation jobs of scenarios in which at least two parses were observed in flight simultaneously")
 	var probeWant []string // taken after the first (cold) scenario of the process
 	first := true
 
@@ -655,7 +664,11 @@ func Run(c *core.Ctx) {
 			// violation shows or 30 schedules have been tried
 			for try := 0; try < 30; try++ {
 				sc = buildScenario(c, p.stream, idx)
-				sc.cold, sc.deferred = first, map[deferredResult]int{}
+				// every fourth scenario runs its concurrent phase before the
+				// sequential one as well: whatever a provider or the parser sets up
+				// lazily (tables keyed by names that appear in the texts) is then
+				// first touched by several goroutines at once
+				sc.cold, sc.deferred = first || (idx/2)%4 == 3, map[deferredResult]int{}
 				c.Begin(0, p.stream, idx, sc.describe())
 				t0 := time.Now()
 				sc.run()
